@@ -446,6 +446,12 @@ func (r *Reader) readReflect(v interface{}) error {
 		}
 
 		// 创建切片并读取每个元素
+		// 长度来自输入：每个元素在线路上至少占 minWireSize 字节，超过剩余数据可容纳的数量即为损坏/截断的数据，
+		// 必须在分配之前拒绝（否则 4 个字节的输入即可请求数十 GiB 的内存）
+		if min := minWireSize(rv.Type().Elem(), 0); min > 0 && int(length) > r.RemainingSize()/min {
+			r.err = io.ErrUnexpectedEOF
+			return r.err
+		}
 		slice := reflect.MakeSlice(rv.Type(), int(length), int(length))
 		for i := 0; i < int(length); i++ {
 			elem := slice.Index(i)
@@ -516,6 +522,29 @@ func (r *Reader) readReflect(v interface{}) error {
 //
 // vals 是要读取的变量指针列表，按顺序依次读取
 // 如果任何读取操作失败，会立即返回错误
+// minWireSize 返回类型 t 的一个值在线路上至少占用的字节数（仅无任何可导出字段的结构体为 0）
+func minWireSize(t reflect.Type, depth int) int {
+	if depth > 8 {
+		return 0
+	}
+	switch t.Kind() {
+	case reflect.Struct:
+		size := 0
+		for i := 0; i < t.NumField(); i++ {
+			if f := t.Field(i); f.PkgPath == "" {
+				size += minWireSize(f.Type, depth+1)
+			}
+		}
+		return size
+	case reflect.Slice, reflect.Array, reflect.String:
+		return 4 // 长度前缀
+	case reflect.Ptr:
+		return minWireSize(t.Elem(), depth+1)
+	default:
+		return 1
+	}
+}
+
 func (r *Reader) ReadInto(vals ...interface{}) error {
 	for i, v := range vals {
 		if err := r.Read(v); err != nil {
